@@ -18,8 +18,28 @@ def run(ctx):
         raise vlib.Infra("negative control failed")
     ctx.add_result(ctx.vh("codegen-requests", {"cases": reqs}, timeout=20000))
     ctx.add_result(ctx.vh("codegen-responses", {"cases": resps}, timeout=20000))
+    # end-to-end: a seeded sample of the request cases through `buf generate` with the harness binary as recording plugin
+    import random
+    rnd = random.Random(ctx.seed)
+    sample = list(reqs)
+    rnd.shuffle(sample)
+    sample = sample[:400 if ctx.quick else 4000]
+    buf = ctx.build_buf()
+    n3 = ctx.vh("codegen-cli", {"buf": buf, "exe": ctx.harness(), "cases": sample[:20], "corrupt": True})
+    if not n3["violations"]:
+        raise vlib.Infra("negative control of the end-to-end stage failed")
+    ctx.add_result(ctx.vh("codegen-cli", {"buf": buf, "exe": ctx.harness(), "cases": sample}, timeout=20000), kind="cli")
+    rsample = [c for c in resps if not c["samePluginDuplicate"]]
+    rnd.shuffle(rsample)
+    rsample = rsample[:400 if ctx.quick else 4000]
+    n4 = ctx.vh("codegen-cli-responses", {"buf": buf, "exe": ctx.harness(), "cases": rsample, "corrupt": True})
+    if not n4["violations"]:
+        raise vlib.Infra("negative control of the end-to-end response stage failed")
+    ctx.add_result(ctx.vh("codegen-cli-responses", {"buf": buf, "exe": ctx.harness(), "cases": rsample}, timeout=20000), kind="cli-responses")
     ctx.assumptions += [
+        "end-to-end responses: 400 (4000) seeded response cases through buf generate with two scripted plugins (the harness binary answering with the files of the case): failure class, nothing written on failure, written set, sentinels outside the working directory",
+        "end-to-end: 400 (4000) seeded request cases run through the buf binary (buf generate, --path for the targets, one local plugin = the harness binary that records each CodeGeneratorRequest and returns one file per file to generate); the multiset of requests and the files created on disk are compared",
         "requests: four files in three directories plus one well-known type, acyclic import graphs with <= 1 (2) imports per file; plugin configuration reduced to strategy x include_imports x include_wkt (type filters are C12, managed mode C18)",
         "responses: two plugins, three spellings of output directories incl. a nested one, seven file-name spellings incl. escaping and absolute ones, insertion points; executed with the real ValidatePluginResponses and bufprotopluginos.ResponseWriter on a scratch tree with sentinels",
     ]
-    return vlib.finish(ctx, rule="every (import graph, target set, include_imports, include_wkt, strategy) of CodeGenRequests.tla compared request by request (file_to_generate, proto_file order), source-retention stripping on a fixed scenario; every (out, files) x (out, file) pair of CodeGenResponses.tla executed on disk: rejection class, nothing written on rejection, written set, sentinels; distinct = cases")
+    return vlib.finish(ctx, rule="every (import graph, target set, include_imports, include_wkt, strategy) of CodeGenRequests.tla compared request by request (file_to_generate, proto_file order), source-retention stripping on a fixed scenario; every (out, files) x (out, file) pair of CodeGenResponses.tla executed on disk: rejection class, nothing written on rejection, written set, sentinels; a seeded sample of the request cases end to end through buf generate with a recording plugin (requests received, files on disk); distinct = cases")
